@@ -303,12 +303,33 @@ def workdir(pid):
     return path
 
 
+_BUILT = set()
+
+
+def ensure_built(imports):
+    '''the modules a generated cases file imports (From VV Require Import A.B ...) must be
+    compiled and up to date, whether or not Props/<id>.v depends on them'''
+    targets = []
+    for stmt in re.findall(r'From\s+VV\s+Require\s+(?:Import\s+|Export\s+)?((?:[A-Za-z_][\w\']*(?:\.[A-Za-z_][\w\']*)*\s*)+)\.(?:\s|$)',
+                           imports):
+        for mod in stmt.split():
+            tgt = mod.replace('.', '/') + '.vo'
+            if os.path.exists(os.path.join(COQ, tgt[:-1])) and tgt not in _BUILT:
+                targets.append(tgt)
+    if targets:
+        ok, out = coq_make(targets)
+        if not ok:
+            raise CoqError('cannot build ' + ' '.join(targets) + '\n' + out[-3000:])
+        _BUILT.update(targets)
+
+
 def coq_eval(pid, imports, shards, timeout=900):
     '''Evaluate generated Coq files.  ``shards`` is a list of strings (bodies);
     each is compiled after ``imports``; the stdout of every shard is returned
     (list of str) in order.  Raises CoqError when a shard does not compile.'''
     wdir = os.path.join(workdir(pid), 'Run')
     os.makedirs(wdir, exist_ok=True)
+    ensure_built(imports)
     names = []
     for k, body in enumerate(shards):
         name = f'cases_{pid}_{k}'
